@@ -49,7 +49,10 @@ CLAIMS = {
            "tree_repeated_cycles, tree_registry_after_restore, tree_registered_iff, tree_degraded_cycle, tied through "
            "driver_snap TREE on the actors/system part of every real snapshot; the actor-tree monitor compares restored "
            "trees, registries, addressing and continuations on both engines (51). Findings F40 F43 F60 F63 fixed in the "
-           "library; F61 (sync watcher of a restored child) and F62 (systemIds of parked records) open",
+           "library; F76 (empty error text dropped on restore) fixed in the library; "
+           "F61 (sync watcher of a restored child) and F62 (systemIds of parked records) open; snapshots taken in the ERROR "
+           "status (failing invoked service, eight shapes of exception, four restore / re-snapshot cycles) are a monitor-only "
+           "check, the snapshot model has no services",
     "C14": "theorems over the lifecycle model (start/stop/send/send_events/restore call sequences, both engines): "
            "status_edges(_run) (only the documented status edges), stop_idempotent, stop_from_any_status, "
            "start_after_stop_raises, start_idempotent_running, start_noop_when_finished, start_resumes_restored, "
